@@ -2,6 +2,7 @@ import Driver.Util
 import NutsModel.C17.TokenPolicy
 import NutsModel.C17.Framing
 import NutsModel.C17.Fold
+import NutsModel.C17.Kid
 import NutsModel.Facts.C17
 open Lean Nuts.Drv Nuts.C17 Nuts
 
@@ -73,6 +74,9 @@ partial def toJVal : Json → Fold.JVal
 def modelFold : String → String := Fold.foldName (Fold.simpleFold id)
 
 def step (st : Unit) (j : Json) : Unit × List String :=
+  if jStr j "op" == "resolvekid" then
+    (st, [Kid.normKidS (jStr j "kid") (jStr j "issuer")])
+  else
   if jStr j "op" == "ambig" then
     (st, [match Fold.ambVal modelFold (toJVal (jObj j "doc")) with | some _ => "ambiguous" | none => "clean"])
   else
@@ -104,12 +108,11 @@ def step (st : Unit) (j : Json) : Unit × List String :=
       -- the harness resolved (kid, or the issuer when kid is absent): `keyfound` is about that lookup
       let E : Env := { fits := fun _ _ => jBool v "fits", resolve := fun _ => if jBool v "keyfound" then some "K" else none, embeddedKey := fun _ => none,
                        verifies := fun _ _ _ => jBool v "verified", verifiesSplit := fun _ _ _ => false }
-      let didOf := fun (kid : String) => (kid.splitOn "#").headD ""
-      vcJwtSignature Facts.C17.supportedAlgs E (jStr j "issuer") didOf info
+      Kid.vcJwtSignatureK Facts.C17.supportedAlgs E (jStr j "issuer") info
     | "authzv1" =>
       let E : Env := { fits := fun _ _ => jBool v "fits", resolve := fun _ => if jBool v "keyfound" then some "K" else none, embeddedKey := fun _ => none,
                        verifies := fun _ _ _ => jBool v "verified", verifiesSplit := fun _ _ _ => false }
-      let didOf := fun (kid : String) => (kid.splitOn "#").headD ""
+      let didOf := Kid.didPartS
       authzV1 Facts.C17.supportedAlgs Facts.C17.authzV1ChecksKidIssuer E (jStr j "issuer") (jBool v "issparses") didOf info
     | "introspect" =>
       let E : Env := { fits := fun _ _ => jBool v "fits", resolve := fun _ => if jBool v "keyfound" && jBool v "ownkey" && !jBool v "storefault" then some "K" else none, embeddedKey := fun _ => none,
@@ -126,7 +129,7 @@ def step (st : Unit) (j : Json) : Unit × List String :=
       let L : LdEnv := { keyAlg := fun _ => if jStr v "keyalg" == "" then none else some (jStr v "keyalg"),
                          verifiesDetached := fun _ _ => jBool v "verified",
                          fits := fun _ _ => jBool v "fits" }
-      let didOf := fun (kid : String) => (kid.splitOn "#").headD ""
+      let didOf := Kid.didPartS
       vcJsonLdProof E L (jBool v "proofobj") (jStr j "issuer") (jStr v "vm") didOf (jBool v "validat") (jBool v "canon") (jNat v "parts") (jBool v "sigdecodes")
     | "vcldfold" =>
       let E : Env := { resolve := fun _ => if jBool v "keyfound" then some "K" else none, embeddedKey := fun _ => none,
@@ -134,7 +137,7 @@ def step (st : Unit) (j : Json) : Unit × List String :=
       let L : LdEnv := { keyAlg := fun _ => if jStr v "keyalg" == "" then none else some (jStr v "keyalg"),
                          verifiesDetached := fun _ _ => jBool v "verified",
                          fits := fun _ _ => jBool v "fits" }
-      let didOf := fun (kid : String) => (kid.splitOn "#").headD ""
+      let didOf := Kid.didPartS
       Fold.vcJsonLdDoc modelFold (jBool v "docok") (jBool v "structvariant") (toJVal (jObj j "doc"))
         (vcJsonLdProof E L (jBool v "proofobj") (jStr j "issuer") (jStr v "vm") didOf (jBool v "validat") (jBool v "canon") (jNat v "parts") (jBool v "sigdecodes"))
     | "parsejws" =>
